@@ -250,6 +250,7 @@ func partGrid(c *vf.Ctx, signers []*signerCase) {
 		{"kid-plain", "https://ca.test/acme/acct/1"},
 		{"kid-escapes", "https://ca.test/acct/\"q\"\\?a=1&b=<\u00fc\u2028>"},
 		{"kid-long", long("https://ca.test/acct/", 240)},
+		{"kid-control", "https://ca.test/acct/\x01\a\v\x7f\x1f\t\r\n"},
 	}
 	nonces := []strClass{
 		{"absent", ""},
@@ -257,11 +258,13 @@ func partGrid(c *vf.Ctx, signers []*signerCase) {
 		{"typical", jose.B64Encode(c.Bytes("c49-nonce", 0, 32))},
 		{"long", long("", 300)},
 		{"escapes", "n\"o\\n<c>&e \u00e9\u2029"},
+		{"control", "n\x00\x01\a\b\f\v\x1b\x7f"}, // control characters and DEL: strings the header must carry as valid JSON (invalid UTF-8 is left out: JSON cannot carry it)
 	}
 	urls := []strClass{
 		{"plain", "https://ca.test/acme/new-order"},
 		{"escapes", "https://ca.test:14000/a/b?x=1&y=<2>\"\\#frag \u00fc"},
 		{"long", long("https://ca.test/acme/order/", 400)},
+		{"control", "https://ca.test/o/\x01\a\v\x7f"},
 	}
 	// quick: the full key x signer x payload x form grid with the nonce/url cross product
 	// thinned to every value of each against the plain value of the other; thorough: full.
